@@ -304,7 +304,8 @@ func (e *Engine) boxKey(t types.Type) (key, sort string) {
 
 func elemKeyName(t types.Type) string {
 	if b, ok := t.Underlying().(*types.Basic); ok {
-		return b.Name()
+		// byte/uint8 and rune/int32 are the same type: one heap array each
+		return types.Typ[b.Kind()].Name()
 	}
 	return sanitize(strings.ReplaceAll(typeKey(t), "github.com/KafScale/platform/", ""))
 }
@@ -430,10 +431,28 @@ func (s *State) load(p *Ptr) (Value, error) {
 			e.heapValKind[key] = ""
 			e.heapGoType[key] = p.Elem
 		}
+		if _, seen := s.heap[key]; !seen {
+			// literal slice initialiser: a concrete header (literal length) over a dedicated base
+			if cg := e.globalConst(p.Glob); cg != nil && cg.isSl && sort == SSlice {
+				n := IntLit(int64(len(cg.elems)))
+				s.heap[key] = App("mk-slice", SSlice, e.globalRef(p.Glob), IntLit(0), n, n)
+			}
+		}
 		t := s.heapGet(key, sort)
 		s.assumeLoaded(t, p.Elem)
+		if strings.HasPrefix(t.S, "(mk-slice ") {
+			for _, f := range e.globalFacts(s, p.Glob, t, p.Elem) {
+				s.assume(f)
+			}
+		}
 		if t.Sort == SIface && e.globalInitNonNil(p.Glob) {
 			s.assume(Not(Eq(App("i-type", SInt, t), IntLit(0))))
+		}
+		if t.S == "H0."+sanitize(key) {
+			// still the initial value: literal initialisers are known
+			for _, f := range e.globalFacts(s, p.Glob, t, p.Elem) {
+				s.assume(f)
+			}
 		}
 		return s.fromTerm(t, p.Elem), nil
 	case pkObj:
